@@ -175,6 +175,8 @@ def history_task(task, wdir, res):
 
     def observe(tier, node):
         res.add_set("tiers", tier)
+        from .c05 import stale_uid_files
+        stale = stale_uid_files(node)     # a named segment still holds files of a type that was compacted out of it
         for qi, (link, fam, expr, lim, text) in enumerate(queries):
             rep = node.cmd(text)
             res.evaluations += 1
@@ -227,7 +229,7 @@ def history_task(task, wdir, res):
             if len(set(pairs)) != len(pairs):
                 res.count("duplicate_pairs_seen")
                 dups = sorted({p for p in pairs if pairs.count(p) > 1})
-                res.violation("sequence_reported_twice", dict(sig, tier_kind=("compacted" if tier in ("c1", "c2", "restart") else tier)),
+                res.violation("sequence_reported_twice", dict(sig, tier_kind=("compacted" if tier in ("c1", "c2", "restart") else tier), stale_uid_files=stale),
                               f"{text} @ {tier}: pairs {dups[:5]} appear more than once among {len(pairs)}", w)
             if len(set(got_a)) != len(got_a):
                 res.count("a_event_in_several_pairs_seen")
